@@ -1,5 +1,5 @@
 Require Import Coq.Strings.String.
-From Verif Require Import Base.Prim Cbor.Codec Run.Wire Suit.Py Suit.Ty Suit.Interp Suit.SpecEnc Suit.SpecTypes gen.GenTypes.
+From Verif Require Import Base.Prim Cbor.Codec Cbor.TagScan Run.Wire Suit.Py Suit.Ty Suit.Interp Suit.SpecEnc Suit.SpecTypes gen.GenTypes.
 
 (* External functions are answered from a table sent with the request: [[kind, [arg...], result]...]; a missing
    entry is reported as `Need kind args` and the harness re-sends the request with the value added.
@@ -101,5 +101,10 @@ Definition run (name : bytes) (args : list cbor) : option cbor :=
         match pyn d, files_of fl, parse_otable ot with
         | Ok d', Some fl', Some ot' => Some (reply c_bytes (let* c := m_spec ot' fl' fuel0 (TRef cls) d' in Ok (ser c)))
         | _, _, _ => None end
+    | _ => None end
+  (* "scan_tags" bytes : SuitObject.reject_sharing_tags(bytes) returns (true) or raises ValueError (false) *)
+  else if is name "scan_tags" then
+    match args with
+    | [CBytes b] => Some (reply c_bool (Ok (scan_tags b)))
     | _ => None end
   else None.
